@@ -44,6 +44,7 @@ def gen_knobs(rng, profile=None):
         "field_ser": rng.random() < 0.3,
         "orjson_opts": rng.random() < 0.3,
         "generic_base": rng.random() < 0.4,
+        "aux": rng.random() < 0.25,
         "inherit": rng.random() < 0.5,
         "n_outer": rng.randint(1, 3),
         "n_leaf": rng.randint(1, 2),
@@ -194,9 +195,13 @@ class FamilyBuilder:
     def make_dialects(self):
         r = self.rng
         n = r.randint(1, 3)
+        if self.kn.get("distinct_dialects"):
+            n = max(n, 2)
         for i in range(n):
             d = {"name": f"D{i + 1}"}
             d["date"] = r.choice([None, "slash", "ord", "slash"])
+            if self.kn.get("distinct_dialects"):
+                d["date"] = ["slash", "ord", None][i % 3]
             for o in ("omit_none", "omit_default", "serialize_by_alias", "namedtuple_as_dict"):
                 if r.random() < 0.25:
                     d[o] = r.random() < 0.8
@@ -333,6 +338,9 @@ class FamilyBuilder:
                      and x["name"] not in self.roots]
             arg = r.choice([["date"], ["int"], ["date"], ["opt", ["date"]]]
                            + ([["cls", r.choice(leafs)]] if leafs else []))
+            auxl = [a["name"] for a in getattr(self, "aux", [])]
+            if auxl and r.random() < 0.6:
+                arg = ["cls", r.choice(auxl)]
             base = ["gen", n, [arg]]
         elif n in self.roots and kn["discr_ann"] and r.random() < 0.7:
             if kn["nofield"] and r.random() < 0.4:
@@ -360,6 +368,17 @@ class FamilyBuilder:
         nref = r.randint(1, 3)
         for i in range(nref):
             fields.append({"n": f"{name.lower()}_r{i}", "t": self.ref_type(name)})
+        auxn = {a["name"] for a in getattr(self, "aux", [])}
+        extra = []
+        for f in fields:
+            t = f["t"]
+            inner = t[1] if t[0] in ("opt", "list", "dict") else t
+            if inner[0] == "gen" and inner[2] and inner[2][0][0] == "cls" and inner[2][0][1] in auxn \
+                    and r.random() < 0.7:
+                extra.append({"n": f["n"] + "x", "t": ["gen", inner[1], [["acls", inner[2][0][1]]]]})
+            elif inner[0] == "cls" and inner[1] in auxn and r.random() < 0.5:
+                extra.append({"n": f["n"] + "x", "t": ["acls", inner[1]]})
+        fields += extra
         if kn.get("deep_variants") and self.roots and not any(
                 t[0] == "ann" for f in fields for t in _types_in(f["t"])):
             root = r.choice(sorted(self.roots))
@@ -384,13 +403,28 @@ class FamilyBuilder:
         return self.add(c)
 
     # -- assembly -------------------------------------------------------------
+    def make_aux(self):
+        """a second module with classes named like leaf classes of the main one
+        but with different fields"""
+        r = self.rng
+        leafs = [c for c in self.classes if c["name"].startswith("L")]
+        self.aux = []
+        for c in leafs[:2]:
+            ac = {"name": c["name"], "mixins": r.choice([[], ["Dict"]]),
+                  "fields": [{"n": "ax", "t": ["int"]},
+                             {"n": "ay", "t": ["date"], "d": ["d", "2000-01-01"]}]}
+            self.aux.append(ac)
+
     def build(self):
         r, kn = self.rng, self.kn
+        self.aux = []
         self.make_dialects()
         if kn["nt"]:
             self.make_nt()
         for _ in range(kn["n_leaf"]):
             self.make_leaf()
+        if kn.get("aux"):
+            self.make_aux()
         if kn["generic"]:
             self.make_generic()
         if kn["discr_cfg"] or kn["discr_ann"]:
@@ -416,7 +450,10 @@ class FamilyBuilder:
         for cut in cuts + [len(order)]:
             chunks.append(order[prev:cut])
             prev = cut
-        return {"pep563": kn["pep563"], "dialects": self.dialects, "chunks": chunks}
+        spec = {"pep563": kn["pep563"], "dialects": self.dialects, "chunks": chunks}
+        if self.aux:
+            spec["aux"] = self.aux
+        return spec
 
     def move_forward_refs(self, order):
         """Move one or two referenced classes (with their subclasses) behind one
@@ -464,7 +501,7 @@ class FamilyBuilder:
     @staticmethod
     def _simple_position(t):
         k = t[0]
-        if k in ("cls", "int", "str", "date", "nt", "tv"):
+        if k in ("cls", "int", "str", "date", "nt", "tv", "acls"):
             return True
         if k in ("opt", "list", "dict"):
             return t[1][0] in ("cls", "int", "str", "date")
@@ -536,6 +573,10 @@ def gen_value(rng, fam, t, defined, depth=0, kn=None, discr=None):
         return ["nt", t[1], [gen_value(rng, fam, f["t"], defined, depth + 1, kn) for f in c["fields"]]]
     if k == "ann":
         return gen_value(rng, fam, t[1], defined, depth, kn, discr=t[2])
+    if k == "acls":
+        c = fam.aux[t[1]]
+        return ["ao", t[1], [[f["n"], gen_value(rng, fam, f["t"], defined, depth + 1, kn)]
+                             for f in c["fields"] if "d" not in f or rng.random() < 0.6]]
     if k in ("cls", "gen"):
         cname = t[1]
         if defined is not None and cname not in defined:
@@ -581,6 +622,8 @@ def has_subclass_instance(fam, v, t, tvmap=None):
         return False
     t = subst(t, tvmap) if tvmap else t
     k = v[0]
+    if k == "ao":
+        return False
     if k == "o":
         decl = t
         while decl[0] in ("opt", "ann"):
@@ -647,6 +690,8 @@ def to_input(fam, v, ctx, discr=None):
         return {kk: to_input(fam, x, ctx) for kk, x in v[1]}
     if k == "nt":
         return [to_input(fam, x, ctx) for x in v[2]]
+    if k == "ao":
+        return {n: to_input(fam, x, dict(ctx, date="iso")) for n, x in v[2]}
     if k == "o":
         cname = v[1]
         sub = dict(ctx)
@@ -899,7 +944,7 @@ def gen_schedule(rng, est_steps=20000):
     x = rng.random()
     if x < 0.2:
         return {"kind": "centry", "q": rng.choice([0.3, 0.6, 1.0]), "p": rng.choice([0.0, 0.002, 0.02])}
-    if x < 0.35:
+    if x < 0.42:
         return {"kind": "gstate", "q": rng.choice([0.3, 0.5, 0.8]), "p": rng.choice([0.0, 0.002, 0.01])}
     if x < 0.55:
         p = rng.choice([0.002, 0.01, 0.03, 0.1, 0.3])
@@ -934,10 +979,20 @@ def gen_conc(rng, fam, kn, defined, first_bias=None):
             or any(t[0] == "ann" for f in fam.all_fields(c) for t in _types_in(f["t"]))]
     if disc and rng.random() < 0.5:
         focus = rng.choice(disc)
-    if rng.random() < 0.35:
+    if rng.random() < kn.get("p_same_call", 0.35):
         # "N threads make the first call at once": the very same call everywhere
         op = gen_call(rng, fam, kn, defined, cname=focus)
-        return {"k": "conc", "progs": [[dict(op)] for _ in range(nthreads)],
+        progs = [[dict(op)] for _ in range(nthreads)]
+        if fam.dialect_support(focus) and fam.dialects and rng.random() < 0.6:
+            # ... through a different dialect in every thread
+            ds = sorted(fam.dialects) + [None]
+            off = rng.randrange(len(ds))
+            for i, prog in enumerate(progs):
+                d = ds[(i + off) % len(ds)]
+                prog[0].pop("dialect", None)
+                if d:
+                    prog[0]["dialect"] = d
+        return {"k": "conc", "progs": progs,
                 "sched": gen_schedule(rng), "sseed": rng.getrandbits(32)}
     for _ in range(nthreads):
         prog = []
@@ -997,7 +1052,12 @@ def gen_history(rng, spec, kn, n_ops=None):
             if rng.random() < 0.7:
                 ops.append(retry)  # the same call again after the interrupted one
         elif what == "conc":
-            ops.append(gen_conc(rng, fam, kn, defined))
+            conc = gen_conc(rng, fam, kn, defined)
+            ops.append(conc)
+            if rng.random() < 0.5:
+                # the same calls again, one by one: damage done by the race persists
+                for prog in conc["progs"]:
+                    ops.append(dict(prog[0]))
         elif what == "codec":
             ops.append(gen_codec_op(rng, fam, kn, defined, codecs))
         elif what == "define":
